@@ -371,7 +371,13 @@ func (g *specGen) operation(path, method string, holders []string, pathLevel boo
 	if method != "get" && method != "delete" {
 		switch rapid.IntRange(0, 2).Draw(t, "payload") {
 		case 0:
-			params = append(params, map[string]any{"name": "body", "in": "body", "required": true, "schema": g.bodySchema()})
+			bname := "body"
+			if g.o.HostileNames {
+				if n := g.propName("bodyname"); n != "" {
+					bname = n
+				}
+			}
+			params = append(params, map[string]any{"name": bname, "in": "body", "required": true, "schema": g.bodySchema()})
 			oi.HasBody = true
 		case 1:
 			p := g.simpleType(1)
